@@ -9,6 +9,7 @@
 import EG.Driver.Util
 import EG.Model.CheckedTriangle
 import EG.Model.ThickTriangle
+import EG.Model.CheckedRRect
 namespace EG.Driver
 open EG
 
@@ -163,6 +164,34 @@ private def triPoints (t : Triangle) (n : Nat) : R (List Pt) := do
     triPtsTake n ⟨tc, rs + 1, re, s, Scanline.newEmpty 0⟩ []
   else pure []
 
+/-! ### rounded rectangles -/
+
+private def readRR (t : Toks) : RoundedRect × Toks :=
+  let (r, t) := t.rect
+  let (a, t) := t.sz; let (b, t) := t.sz; let (c, t) := t.sz; let (d, t) := t.sz
+  (⟨r, ⟨a, b, c, d⟩⟩, t)
+
+private def fmtRadii (c : CornerRadii) : String :=
+  s!"{c.tl.w},{c.tl.h};{c.tr.w},{c.tr.h};{c.br.w},{c.br.h};{c.bl.w},{c.bl.h}"
+
+/-- `rounded_rectangle.points().take(n)`: `Points::new` = `RoundedRectangleContains::new`; every
+turn of the loop of `Points::next` either yields a point or fetches the next row (`fuel` bounds
+the turns: `n` points plus all rows). -/
+private def rrPtsTake : Nat → Nat → RRContains → Scanline → List Pt → Option (List Pt)
+  | 0, _, _, _, acc => some acc.reverse
+  | _, 0, _, _, acc => some acc.reverse
+  | fuel + 1, n + 1, c, cur, acc =>
+    match cur.next with
+    | some (p, cur') => rrPtsTake fuel n c cur' (p :: acc)
+    | none => do
+      match ← Chk.RRContains.next c with
+      | none => pure acc.reverse
+      | some (s, c') => rrPtsTake fuel (n + 1) c' s acc
+
+private def rrPoints (r : RoundedRect) (n : Nat) : Option (List Pt) := do
+  let c ← Chk.RRContains.new r
+  rrPtsTake (n + (c.rowsEnd - c.rowsStart).toNat + 2) n c (Scanline.newEmpty 0) []
+
 private def readTri (t : Toks) : Triangle × Toks :=
   let (a, t) := t.pt; let (b, t) := t.pt; let (c, t) := t.pt
   (⟨a, b, c⟩, t)
@@ -181,6 +210,18 @@ def handleChk2 (kernel : String) (t : Toks) : Option String :=
   | "tri.points" =>
     let (tr, t) := readTri t; let (n, _) := t.nat
     (triPoints tr n).out fmtPts
+  | "rrect.confine" =>
+    let (rr, _) := readRR t
+    some (orPanic2 fmtRadii (Chk.CornerRadii.confine rr.corners rr.rect.size))
+  | "rrect.contains" =>
+    let (rr, t) := readRR t; let (p, _) := t.pt
+    some (orPanic2 fmtBool2 (Chk.RoundedRect.contains rr p))
+  | "rrect.offset" =>
+    let (rr, t) := readRR t; let (o, _) := t.int
+    some (orPanic2 (fun (r : RoundedRect) => s!"{fmtRect r.rect} {fmtRadii r.corners}") (Chk.RoundedRect.offset rr o))
+  | "rrect.points" =>
+    let (rr, t) := readRR t; let (n, _) := t.nat
+    some (orPanic2 fmtPts (rrPoints rr n))
   | _ => none
 
 end EG.Driver
